@@ -124,6 +124,22 @@ func (ts *TunnelSet) onFrame(ev *FrameEvent) {
 	if len(ev.Payload) > ts.MaxPayload {
 		ts.MaxPayload = len(ev.Payload)
 	}
+	if ev.Type == protocol.FrameUDPOpen {
+		if uo, err := protocol.DecodeUDPOpen(ev.Payload); err == nil {
+			// UDP tunnels of a run are told apart by their ingress (one UDP
+			// tunnel per ingress and exit pair in this workload)
+			for _, x := range ts.T {
+				if x.Kind == "udp" && (x.EphPub == ([32]byte{}) || x.EphPub == uo.EphemeralPubKey) && (len(x.hops) == 0 || x.EphPub == uo.EphemeralPubKey) {
+					if len(x.hops) == 0 && ts.m.Nodes[x.Ingress].Name != ev.From {
+						continue
+					}
+					x.EphPub = uo.EphemeralPubKey
+					x.hops = append(x.hops, hop{From: ev.From, To: ev.To, ID: ev.StreamID, Link: ev.Link.ID})
+					break
+				}
+			}
+		}
+	}
 	if ev.Type == protocol.FrameStreamOpen {
 		so, err := protocol.DecodeStreamOpen(ev.Payload)
 		if err != nil {
@@ -169,6 +185,10 @@ func (ts *TunnelSet) Add(t *Tunnel) {
 	ts.T = append(ts.T, t)
 	ts.byPort[port] = t
 	ex := ts.m.Nodes[t.Exit]
+	if t.Kind == "udp" {
+		ts.addUDP(t)
+		return
+	}
 	switch t.Kind {
 	case "tcp":
 		t.Addr = fmt.Sprintf("10.%d.3.4:%d", 100+t.Exit, port)
@@ -301,6 +321,10 @@ func (ts *TunnelSet) misdelivery(t *Tunnel, where string, off int, got []byte) {
 
 // Start launches tunnel t's client as simulated goroutines.
 func (ts *TunnelSet) Start(t *Tunnel) {
+	if t.Kind == "udp" {
+		ts.startUDP(t)
+		return
+	}
 	nd := ts.m.Nodes[t.Ingress]
 	ts.group.Go(fmt.Sprintf("client-%d", t.ID), func() {
 		simrt.SetNode(nd.Name)
@@ -401,7 +425,7 @@ func (ts *TunnelSet) Wait(limit time.Duration) bool {
 // opened tunnel delivered exactly the bytes that were sent, in both directions.
 func (ts *TunnelSet) CheckComplete() {
 	for _, t := range ts.T {
-		if t.faulted {
+		if t.faulted || t.Kind == "udp" {
 			continue
 		}
 		if !t.Opened {
